@@ -62,6 +62,20 @@ func maps_randSeed() uint64 {
 	return rand()
 }
 
+// SimMath is the stream behind math/rand and math/rand/v2's top-level functions (the file system
+// store draws file names from it), apart from rand() for the same reason.
+//
+//go:linkname SimMath
+var SimMath uint64
+
+//go:linkname simMathRand
+func simMathRand() uint64 {
+	if SimMath != 0 {
+		return simStep(&SimMath)
+	}
+	return rand()
+}
+
 //go:linkname maps_randIter internal/runtime/maps.randIter
 func maps_randIter() uint64 {
 	if SimIter != 0 {
@@ -110,5 +124,7 @@ patch('map.go', [("m.seed = uintptr(rand())", "m.seed = uintptr(randSeed())")], 
 patch('table.go', [("it.entryOffset = rand()", "it.entryOffset = randIter()"), ("it.dirOffset = rand()", "it.dirOffset = randIter()")], pkg=MAPS)
 patch('runtime.go', [("//go:linkname rand\nfunc rand() uint64\n",
                       "//go:linkname rand\nfunc rand() uint64\n\n//go:linkname randSeed\nfunc randSeed() uint64\n\n//go:linkname randIter\nfunc randIter() uint64\n")], pkg=MAPS)
+patch('rand.go', [("//go:linkname runtime_rand runtime.rand\n", "//go:linkname runtime_rand runtime.simMathRand\n")], pkg='math/rand/v2')
+patch('rand.go', [("//go:linkname runtime_rand runtime.rand\n", "//go:linkname runtime_rand runtime.simMathRand\n")], pkg='math/rand')
 json.dump({"Replace": FILES}, open(f'{O}/overlay.json', 'w'), indent=1)
 print('overlay written to', O)
